@@ -96,16 +96,23 @@ SkRun(deg, refine) == SkRunFrom(SkInit(deg, refine))
 (*   degree 1             <= 1e-15              1e-13                                                            *)
 (*   degree 2             2e-15                 2e-13                                                            *)
 (*   degree 3, refined    2e-15                 2e-13                                                            *)
-(*   degree 3, unrefined  1.3e-7 (Cardano's discriminant cancels for near-multiple roots)   1e-4                 *)
+(*   degree 3, unrefined  by conditioning of the discriminant, see below: 1e-8 / 1e-6 / 1e-4                      *)
 (*   degree >= 4, refined 5e-15                 5e-13                                                            *)
 (*   degree >= 4, unref.  6.3e-11 (deflation)   1e-8                                                             *)
+(* The unrefined cubic is split by the conditioning of Cardano's discriminant: amp = sum|terms of dis| / |dis| (logged as its  *)
+(* decimal exponent amp_e, 99 when the computed discriminant is exactly 0), calibrated over 22 seeds / 217 000 unrefined cubics: *)
+(*   amp_e <= 11      worst 7.5e-11   guard 1e-8                                                                              *)
+(*   amp_e 12..14     worst 1.3e-9    guard 1e-6                                                                              *)
+(*   amp_e >= 15, 99  worst 1.3e-7    guard 1e-4   (near-multiple roots: the discriminant cancels completely)                 *)
 Sat30 == 1073741824
-BeGuardE15(deg, refine) == CASE deg = 1 -> 100
-                             [] deg = 2 -> 200
-                             [] deg = 3 /\ refine -> 200
-                             [] deg = 3 /\ ~refine -> Sat30                    \* judged on the coarse scale
-                             [] deg >= 4 /\ refine -> 500
-                             [] OTHER -> 10000000
-BeGuardE6(deg, refine) == IF deg = 3 /\ ~refine THEN 100 ELSE 1
-BeOK(deg, refine, e15, e6) == e15 <= BeGuardE15(deg, refine) /\ e6 <= BeGuardE6(deg, refine)
+CubicGuardE15(amp) == IF amp <= 11 THEN 10000000 ELSE IF amp <= 14 THEN 1000000000 ELSE Sat30
+CubicGuardE6(amp) == IF amp <= 14 THEN 1 ELSE 100
+BeGuardE15(deg, refine, amp) == CASE deg = 1 -> 100
+                                  [] deg = 2 -> 200
+                                  [] deg = 3 /\ refine -> 200
+                                  [] deg = 3 /\ ~refine -> CubicGuardE15(amp)
+                                  [] deg >= 4 /\ refine -> 500
+                                  [] OTHER -> 10000000
+BeGuardE6(deg, refine, amp) == IF deg = 3 /\ ~refine THEN CubicGuardE6(amp) ELSE 1
+BeOK(deg, refine, amp, e15, e6) == e15 <= BeGuardE15(deg, refine, amp) /\ e6 <= BeGuardE6(deg, refine, amp)
 =============================================================================
